@@ -205,8 +205,9 @@ def run(prop, tier, seed, replay=None):
                     % [[o['name'] for o in p] for p in m['Programs']][:6])
                 skel.extend(r.cases)
             skel = drop_prefixes(skel)
-            for k, c in enumerate(skel):
-                cases.append(ft.record_case('T-%06d' % k, c['tree'], c['ops'], mods, seed * 31 + k))
+            cases.extend(core.pmap(ft.record_case,
+                                   [('T-%06d' % k, c['tree'], c['ops'], None, seed * 31 + k)
+                                    for k, c in enumerate(skel)]))
             rep.exhaustive = True
             cases.extend(random_cases(prop, tier, seed, mods))
         byid = {c['id']: c for c in cases}
